@@ -42,6 +42,8 @@ EOuts(curve, op, pr, x) ==
     [] op = "add_chain" -> {E(x.P[1])}
     [] op = "mulc" -> {E(PMul(c, Rem(pr[1], c.r), x.P[1]))}
     [] op \in {"msm", "msm_bounded", "msm_le_bits", "msm_bytes"} -> {E(Msm(c, x.S, x.P))}
+    [] op = "msm_negpair" -> {E(Msm(c, x.S, <<x.P[1], Neg(c, x.P[1])>>))}     \* bases P and its in-circuit negation
+    [] op = "msm_dup" -> {E(Msm(c, x.S, <<x.P[1], x.P[1]>>))}                \* the same assigned point twice
     [] op = "is_equal" -> {<<BoolN(x.P[1] = x.P[2])>>}
     [] op \in {"assert_equal", "assert_not_equal", "pub", "in_subgroup"} -> {<<>>}
     [] op = "select" -> {E(x.P[1]), E(x.P[2])}
